@@ -313,6 +313,9 @@ fn part_merge(rep: &mut Report, args: &Args) {
         if !args.mine(gi) {
             continue;
         }
+        if rep.over_budget() {
+            return;
+        }
         for (ci, (cname, cmp)) in cmps.iter().enumerate() {
             rep.inc("executions");
             rep.inc("merge_cases");
